@@ -51,7 +51,7 @@ CLAIMED = {
          "DESIGN.md §4 C07, §3.4"),
  'C15': ("model-based generation: typed model tree + independent construction plan (proptest), flattening oracle",
          "A model tree of stack-neutral statements with nested block/loop/if-else and branches is realised through the builder API by a generated plan (insertion order, append vs *_at, closure-nested vs dangling sequences attached before/after filling, fills deferred to the end); the decoded emitted body must equal the model's in-order flattening including branch depths, block signatures (0-2 parameters and results via InstrSeqType::new), parameter positions and an injective, type-correct local slot map; in half of the cases nested sequences are allocated before the sequences that later enclose them.",
-         "Statements are restricted to a typed family that is valid by construction (i32 arithmetic, locals, branches to value-less labels).",
+         "Statements are restricted to a typed family that is valid by construction (i32 arithmetic, locals, branches to value-less labels, 42 scalar unary operators applied to a constant and dropped, three shapes of i32 load on three memories compared with their immediates).",
          "DESIGN.md §4 C15"),
  'C16': ("property-based generation of instruction trees (parsed and builder-made), reference-walk oracle; child process on a 256 KiB stack for depth 10^5",
          "Recording visitors (default hooks and overridden per-instruction hooks, immutable and mutable) are compared with a recursive reference walk using a hand-written operand table: event sequence for dfs_in_order, per-instruction id multisets for both traversals, started at the entry and at nested sequences; non-recursion is decided by traversing depth-10^5 trees on a 256 KiB thread stack in a child process (death by signal = violation).",
